@@ -158,6 +158,10 @@ pub struct Plan {
     /// trait the caller may implement): members of classes the mappings do not mention get new names
     #[serde(default)]
     pub overlay: Vec<Ov>,
+    /// a class write that fails inside an attribute body is made on this thread before anything else (missed seeded
+    /// change C07-13: a pooled attribute buffer of the class writer that is only cleared on success)
+    #[serde(default)]
+    pub poison_first: bool,
 }
 
 #[derive(Clone, Serialize, Deserialize, Debug)]
@@ -801,7 +805,8 @@ impl Engine for C07 {
             entries.extend(others);
             w.shuffle(&mut entries);
         }
-        let mut p = Plan { entries, deflate: w.chance(60), map: wl.map, map_order: if w.chance(30) { 0 } else { w.next() | 1 }, io: IoPlan::plain(), provider_healthy: false, sink: None, sink_route: 0, lazy: None, overlay: vec![] };
+        let mut p = Plan { entries, deflate: w.chance(60), map: wl.map, map_order: if w.chance(30) { 0 } else { w.next() | 1 }, io: IoPlan::plain(), provider_healthy: false, sink: None, sink_route: 0, lazy: None, overlay: vec![], poison_first: false };
+        p.poison_first = rng.split("poison-first").chance(5);
         // ---- a caller-written remapper over the mapping-based one: new names for members (declared or referred to in
         // the jar) of classes the mappings do not rename (missed seeded change C07-10)
         {
@@ -914,6 +919,9 @@ impl Engine for C07 {
     }
 
     fn exec(&self, p: &Plan, st: &mut RunStats) -> Vec<Violation> {
+        if p.poison_first && crate::c02::poison_write() {
+            st.probe("poison_write_first");
+        }
         let mut out: Vec<Violation> = vec![];
         let mut seen: BTreeSet<String> = BTreeSet::new();
         let mut obs = Digest::new();
@@ -1147,6 +1155,11 @@ impl Engine for C07 {
         for io in shrink_io(&p.io).into_iter().take(12) {
             let mut q = p.clone();
             q.io = io;
+            c.push(q);
+        }
+        if p.poison_first {
+            let mut q = p.clone();
+            q.poison_first = false;
             c.push(q);
         }
         if !p.overlay.is_empty() {
